@@ -17,6 +17,8 @@ var (
 	objA   = bytes.Repeat([]byte("verif C11 object A\n"), 40)
 	objB   = bytes.Repeat([]byte("verif C11 object B, present in the local store\n"), 30)
 	objNew = bytes.Repeat([]byte("verif C11 new file cleaned by the filter\n"), 25)
+	// exists neither locally nor at the endpoint (override cases only)
+	objGone = bytes.Repeat([]byte("verif C11 object that exists nowhere\n"), 20)
 )
 
 func pointerText(b []byte) string {
@@ -40,6 +42,8 @@ type obs struct {
 	TimedOut bool              `json:"timed_out,omitempty"`
 	Files    map[string]string `json:"lfsconfig_text"`
 	GenErr   string            `json:"generator_selfcheck_error,omitempty"`
+	// number of the user's Git settings Git itself was asked to read back
+	GitCfgChecked int `json:"gitconfig_selfchecked,omitempty"`
 }
 
 type twin struct {
@@ -50,6 +54,7 @@ type twin struct {
 	roots []string
 	o     *obs
 	extra []string
+	gitc  []string // `-c key=value` options every git command of the twin carries (user's one-shot settings)
 }
 
 func slotPresent(c kase, slot string) bool {
@@ -85,6 +90,9 @@ func (t *twin) norm(b []byte) string {
 }
 
 func (t *twin) run(label string, sortLines bool, dropLines string, name string, args ...string) sbx.Result {
+	if name == "git" && len(t.gitc) > 0 {
+		args = append(append([]string{}, t.gitc...), args...)
+	}
 	full := append([]string{"-u", "GIT_ASKPASS", "-u", "SSH_ASKPASS", name}, args...)
 	res := t.env.Run(sbx.RunOpt{Dir: t.dir, Env: t.extra}, "env", full...)
 	out := t.norm(res.Stdout)
@@ -125,6 +133,12 @@ func cfgBlock(k ckey, val string) string {
 		h = "[" + k.Sec + ` "` + strings.NewReplacer(`\`, `\\`, `"`, `\"`).Replace(k.Sub) + `"]`
 	}
 	return h + "\n\t" + k.Key + " = " + cfgQuote(val) + "\n"
+}
+
+// cfgBlockValueless: `key` alone on its line, which Git reads as boolean true.
+func cfgBlockValueless(k ckey) string {
+	b := cfgBlock(k, "")
+	return b[:strings.LastIndex(b, " = ")] + "\n"
 }
 
 // runTwin materialises the case with the given entries and runs the command set.
@@ -168,18 +182,47 @@ exit 1
 	}
 	local := ""
 	nenv := 0
+	incText := map[string]string{} // file holding the [include] directive -> text of the included file
+	wants := map[string]string{} // key -> record `git config -z -l` must print last for it
 	for _, g := range c.GitCfg {
 		k := g.K
 		k.Sub = t.s.apply(k.Sub, 0)
 		v := t.s.apply(g.Val, 0)
+		valueless := g.OKind == "valueless"
+		wants[k.String()] = k.String() + "\n" + v
+		if valueless {
+			wants[k.String()] = k.String()
+		}
+		blk := cfgBlock(k, v)
+		if valueless {
+			blk = cfgBlockValueless(k)
+		}
 		switch g.Scope {
 		case "global":
-			glob += cfgBlock(k, v)
+			glob += blk
 		case "env":
 			t.extra = append(t.extra, fmt.Sprintf("GIT_CONFIG_KEY_%d=%s", nenv, k.String()), fmt.Sprintf("GIT_CONFIG_VALUE_%d=%s", nenv, v))
 			nenv++
+		case "cmdline":
+			if valueless {
+				t.gitc = append(t.gitc, "-c", k.String())
+			} else {
+				t.gitc = append(t.gitc, "-c", k.String()+"="+v)
+			}
+		case "include":
+			incText[g.IncFrom] += blk
 		default:
-			local += cfgBlock(k, v)
+			local += blk
+		}
+	}
+	for from, txt := range incText {
+		p := filepath.Join(root, "user-inc-"+from+".cfg")
+		must(os.WriteFile(p, []byte(txt), 0o644))
+		d := "[include]\n\tpath = " + cfgQuote(p) + "\n"
+		if from == "global" {
+			glob += d
+		} else {
+			local += d
 		}
 	}
 	if nenv > 0 {
@@ -213,6 +256,9 @@ exit 1
 	wr(".gitattributes", []byte("*.bin filter=lfs diff=lfs merge=lfs -text\n"))
 	wr("a.bin", []byte(pointerText(objA)))
 	wr("b.bin", []byte(pointerText(objB)))
+	if c.Missing {
+		wr("c.bin", []byte(pointerText(objGone)))
+	}
 	if h, ok := text["head"]; ok {
 		wr(".lfsconfig", []byte(h))
 	}
@@ -254,6 +300,15 @@ exit 1
 		}
 	}
 
+	// ... and Git itself must report the user's setting exactly as intended (last value of the key)
+	if len(wants) > 0 {
+		if err := t.gitCfgSelfCheck(wants); err != nil {
+			t.o.GenErr = "git configuration: " + err.Error()
+			return t.o
+		}
+		t.o.GitCfgChecked = len(wants)
+	}
+
 	v := t.s.V
 	pushRemote := v.R1
 	if (c.Variant == "origin+dotted" || c.Variant == "origin+other") && c.Noise%2 == 0 {
@@ -273,6 +328,15 @@ exit 1
 			t.run("ls-files", false, "", "git", "lfs", "ls-files")
 			t.run("status", false, ".lfsconfig", "git", "lfs", "status")
 		}
+	} else if c.Light && bare {
+		t.run("env", true, "", "git", "lfs", "env")
+		t.run("fetch", false, "", "git", "lfs", "fetch", v.R1, "main")
+		t.run("push", false, "", "git", "lfs", "push", pushRemote, "main")
+	} else if c.Light {
+		t.run("env", true, "", "git", "lfs", "env")
+		t.run("fetch", false, "", "git", "lfs", "fetch")
+		t.run("pull", false, "", "git", "lfs", "pull")
+		t.run("push", false, "", "git", "lfs", "push", pushRemote, "main")
 	} else if bare {
 		t.run("env", true, "", "git", "lfs", "env")
 		t.run("ls-files", false, "", "git", "lfs", "ls-files", "main")
@@ -300,7 +364,10 @@ exit 1
 		for _, l := range strings.Split(strings.TrimSpace(string(r.Stdout)), "\n") {
 			t.o.State = append(t.o.State, "index: "+l)
 		}
-		for _, n := range []string{"a.bin", "b.bin", "new.bin"} {
+		for _, n := range []string{"a.bin", "b.bin", "new.bin", "c.bin"} {
+			if n == "c.bin" && !c.Missing {
+				continue
+			}
 			h, sz, err := sbx.Sha256File(filepath.Join(work, n))
 			if err != nil {
 				t.o.State = append(t.o.State, "worktree: "+n+" missing")
@@ -345,6 +412,29 @@ func readLines(p string, t *twin) []string {
 		}
 	}
 	return out
+}
+
+// gitCfgSelfCheck asks Git (same directory, environment and -c options as every command of the twin) for its
+// whole configuration and compares the LAST record of every key the case sets with what the generator intended,
+// including "kept blank" and "no value at all". .lfsconfig is not part of Git's configuration, so it cannot interfere.
+func (t *twin) gitCfgSelfCheck(wants map[string]string) error {
+	args := append(append([]string{"-u", "GIT_ASKPASS", "-u", "SSH_ASKPASS", "git"}, t.gitc...), "config", "-z", "-l")
+	r := t.env.Run(sbx.RunOpt{Dir: t.dir, Env: t.extra}, "env", args...)
+	if !r.OK() {
+		return fmt.Errorf("git config -z -l failed: %s", r.Stderr)
+	}
+	last := map[string]string{}
+	for _, rec := range strings.Split(string(r.Stdout), "\x00") {
+		if rec != "" {
+			last[strings.SplitN(rec, "\n", 2)[0]] = rec
+		}
+	}
+	for key, want := range wants {
+		if last[key] != want {
+			return fmt.Errorf("key %s: git reads record %q, generator intended %q", key, last[key], want)
+		}
+	}
+	return nil
 }
 
 // selfCheck parses the rendered text with `git config -z` (unambiguous, NUL separated) and compares.
